@@ -53,18 +53,18 @@ func GenTargeted(seed int64, idx int, profile string) (GCase, bool) {
 		files: map[string]string{}, feats: map[string]bool{}}
 	fams := map[string][]func(*tgen){
 		"nesting":    {famNested, famNested, famNestedConvRoot, famCandidates},
-		"notations":  {famNested, famNestedConvRoot, famCaseFlip, famRefs, famPerMethodLists},
+		"notations":  {famNested, famNestedConvRoot, famCaseFlip, famRefs, famPerMethodLists, famGetterShapes},
 		"scoping":    {famPerMethodLists, famPerMethodLists, famIntfLevel},
 		"hooks":      {famSharedHooks, famSharedHooks, famHookShapes},
 		"errors":     {famErrors, famSharedHooks, famErrors},
 		"signatures": {famSignatures, famSignatures},
 		"selection":  {famSelection, famSelection},
 		"imports":    {famImports, famImports},
-		"matching":   {famMatching, famCandidates, famCandidates, famImports},
+		"matching":   {famMatching, famCandidates, famCandidates, famImports, famGetterShapes},
 		"slices":     {famSlices, famSlices},
 		"casefold":   {famCaseFlip, famCandidates},
 		"simple":     {famRefs},
-		"mixed":      {famNested, famPerMethodLists, famSharedHooks, famErrors, famSignatures, famImports, famMatching, famSlices, famRefs, famCaseFlip, famCandidates},
+		"mixed":      {famNested, famPerMethodLists, famSharedHooks, famErrors, famSignatures, famImports, famMatching, famSlices, famRefs, famCaseFlip, famCandidates, famGetterShapes},
 		"malformed":  {famSharedHooks, famErrors},
 	}
 	fs, ok := fams[profile]
@@ -879,6 +879,78 @@ func famCandidates(t *tgen) {
 	sb.WriteString("}\n")
 	t.files[t.name+"/setup.go"] = sb.String()
 	t.files[t.name+"/types.go"] = ty.String()
+}
+
+// ---- method shapes offered as getters: parameters, result counts, receivers, chains ----------------------------
+
+func famGetterShapes(t *tgen) {
+	t.feat("family:getter-shapes")
+	ty := fmt.Sprintf(`package %s
+
+type Cat struct{ name string; Age int }
+
+func (c Cat) Name() string   { return c.name }
+func (c *Cat) PName() string { return c.name }
+
+type S struct {
+	A   int
+	cat Cat
+	pc  *Cat
+}
+
+func (s S) Plain() int               { return s.A }
+func (s *S) PtrRecv() int            { return s.A }
+func (s S) WithParam(n int) int      { return n }
+func (s S) Variadic(n ...int) int    { return len(n) }
+func (s S) Two() (int, error)        { return s.A, nil }
+func (s S) TwoNoErr() (int, string)  { return s.A, "" }
+func (s S) Three() (int, int, error) { return 0, 0, nil }
+func (s S) None()                    {}
+func (s S) ErrOnly() error           { return nil }
+func (s S) Cat() Cat                 { return s.cat }
+func (s S) PCat() *Cat               { return s.pc }
+func (s S) Self() S                  { return s }
+
+type D struct {
+	A, B, C int
+	N, M    string
+}
+
+func FromCat(c *Cat) string  { return c.Name() }
+func FromCatV(c Cat) string  { return c.Name() }
+func FromInt(n int) (int, error) { return n, nil }
+`, t.name)
+	srcs := []string{"Plain()", "PtrRecv()", "WithParam()", "Variadic()", "Two()", "TwoNoErr()", "Three()", "None()", "ErrOnly()",
+		"Cat().Age", "PCat().Age", "Cat().Name()", "Cat().PName()", "PCat().Name()", "PCat().PName()", "Self().A", "Self().Plain()",
+		"Self().Self().A", "Two().A", "A", "cat.Age", "cat.Name()", "cat.PName()", "pc.PName()"}
+	convs := []string{"FromCat Cat() N", "FromCat PCat() N", "FromCatV Cat() N", "FromCatV PCat() N", "FromCat cat N", "FromCat pc N",
+		"FromInt Plain() B", "FromInt Two() B", "FromInt A B"}
+	var sb strings.Builder
+	sb.WriteString(header(t))
+	sb.WriteString("type Convergen interface {\n")
+	for j := 0; j < 1+t.r.Intn(3); j++ {
+		dsts := []string{"A", "B", "C"}
+		t.r.Shuffle(len(dsts), func(a, b int) { dsts[a], dsts[b] = dsts[b], dsts[a] })
+		for _, d := range dsts[:1+t.r.Intn(3)] {
+			fmt.Fprintf(&sb, "\t// :map %s %s\n", srcs[t.r.Intn(len(srcs))], d)
+		}
+		if t.ch(0.5) {
+			sb.WriteString("\t// :conv " + convs[t.r.Intn(len(convs))] + "\n")
+		}
+		if t.ch(0.3) {
+			fmt.Fprintf(&sb, "\t// :map %s M\n", t.pick("Cat().Name()", "Cat().PName()", "PCat().Name()", "cat.Name()", "pc.Name()"))
+		}
+		for _, n := range []string{":getter", ":typecast", ":stringer"} {
+			if t.ch(0.3) {
+				sb.WriteString("\t// " + n + "\n")
+			}
+		}
+		ret := t.pick("*D", "D", "(*D, error)", "(D, error)")
+		fmt.Fprintf(&sb, "\tTo%d(%sS) %s\n", j, t.pick("*", ""), ret)
+	}
+	sb.WriteString("}\n")
+	t.files[t.name+"/setup.go"] = sb.String()
+	t.files[t.name+"/types.go"] = ty
 }
 
 // ---- slices ---------------------------------------------------------------------------------------------------
